@@ -41,7 +41,7 @@ fn real_main() {
         "worker" => {
             if args.len() < 7 { usage(); }
             let tier = args[3].clone();
-            let budget: u64 = std::env::var("VF_BUDGET_S").ok().and_then(|s| s.parse().ok()).unwrap_or(if tier == "quick" { 150 } else { 1500 });
+            let budget: u64 = std::env::var("VF_BUDGET_S").ok().and_then(|s| s.parse().ok()).unwrap_or(if tier == "quick" { if args[2] == "C07" { 300 } else { 150 } } else { 1500 });
             let ctx = run::Ctx {
                 id: args[2].clone(), tier, seed: args[4].parse().unwrap(), shard: args[5].parse().unwrap(), nshards: args[6].parse().unwrap(),
                 deadline: std::time::Instant::now() + std::time::Duration::from_secs(budget),
@@ -119,7 +119,9 @@ fn real_main() {
             let text = args[3].replace("\\n", "\n");
             let mut p = tree_sitter::Parser::new();
             p.set_language(&l.language).unwrap();
+            if std::env::var("VF_PARSE_LOG").is_ok() { p.set_logger(Some(Box::new(|t, m: &str| { if t == tree_sitter::LogType::Parse { println!("  log: {}", m); } }))); }
             let t = p.parse(text.as_bytes(), None).unwrap();
+            p.set_logger(None);
             println!("{}", t.root_node().to_sexp());
             let xt = xtree::XTree::build(&t);
             for (i, n) in xt.nodes.iter().enumerate() {
